@@ -17,11 +17,11 @@ Theorem C20_never_reserved e : e + off < two32 -> encode off e <> 58 /\ encode o
 Proof. destruct bridge_key_offset as [H _]; exact (never_reserved off e H). Qed.
 
 (* every exponent below 55 000 is representable (valid field-name code point) *)
-Theorem C20_representable e : e < 55000 -> representable off e = true.
+Theorem C20_representable sur e : e < 55000 -> representable sur off e = true.
 Proof.
 intros H; destruct bridge_key_offset as [H1 H2]; unfold representable, valid_cp, off in *.
 pose proof two32_val as T.
-rewrite !andb_true_iff, orb_true_iff, !N.ltb_lt. lia.
+rewrite !andb_true_iff, !orb_true_iff, !N.ltb_lt. lia.
 Qed.
 
 Theorem C20_rows_roundtrip r : bounded off r -> decode_row off (encode_row off r) = r.
@@ -64,7 +64,7 @@ Theorem C20_unguarded_refuted :
 Proof. exact product_key_unguarded_refuted. Qed.
 
 Example C20_nonvacuous :
-  bounded off [100000; 54999] /\ representable off 54999 = true /\
+  bounded off [100000; 54999] /\ representable false off 54999 = true /\
   option_map (load off) (kmul off (lib_fast [([40; 70000], 3%Z)] [([60; 5], (-2)%Z)])
                               [([40; 70000], 3%Z)] [([60; 5], (-2)%Z)])
   = Some [([100; 70005], (-6)%Z)].
